@@ -75,7 +75,7 @@ fn stub_pool() -> Vec<Stub> {
         // incl. a negative delay and negative totals (an animation that was over before time 0)
         for delay in [0.0f32, 0.5, 2.0, -8.0] {
             for duration in [1.0f32, 3.0, f32::INFINITY, -6.0, -2.0] {
-                for repeat in [Repeat::None, Repeat::Times(0), Repeat::Times(3), Repeat::Times(u32::MAX), Repeat::Infinite] {
+                for repeat in [Repeat::None, Repeat::Times(0), Repeat::Times(3), Repeat::Times(16_777_216), Repeat::Times(16_777_217), Repeat::Times(u32::MAX - 1), Repeat::Times(u32::MAX), Repeat::Infinite] {
                     tag += 1;
                     v.push(Stub { cycle, delay, duration, repeat, tag });
                 }
@@ -139,7 +139,8 @@ fn stub_family(thorough: bool) -> (VSink, u64) {
             for j in 0..np {
                 lists.push(vec![i, j]);
                 if maxlen >= 3 {
-                    for k in 0..np {
+                    // (every other third element, alternating with i + j, to bound the cube)
+                    for k in ((i + j) % 2..np).step_by(2) {
                         lists.push(vec![i, j, k]);
                     }
                 }
@@ -406,7 +407,7 @@ pub fn run(run: Run) -> ! {
     cov.insert("traces_validated_against_impl".into(), json!(acc.evals));
     cov.insert("evaluations".into(), json!(acc.evals));
     cov.insert("distinct_nontrivial".into(), json!(acc.lists - 1));
-    cov.insert("rule".into(), json!(format!("ALL lists of length 0..={maxlen} over a pool of {np} component timelines (property sets {{a}},{{k}},{{a,k}},{{}}; delays 0..1; cycles 1/2,1,2,4; repeat None/Times 0,1,2,3/Infinite/Times(u32::MAX, metadata only); reverse on/off); oracle: merged.update == components applied in order (bit-equal; fresh and dirty targets; union of the components' time grids), same after start_with, all orders agree when property sets are disjoint ({} permuted lists), delay=min, duration=max (inf if any), repeat=largest in None<Times n<Infinite, cycle_duration=Some iff all equal, MergedTimeline::from(t) == t; plus a metadata family of {} lists over 600 stub components (cycle undefined/1/2/1+1ulp/1e-8/5e-8 x delay 0/0.5/2/-8 x duration 1/3/inf/-6/-2 x repeat None/Times 0/Times 3/Times(u32::MAX)/Infinite): flat lists, nested merged timelines [[a,b],[c]], [[a],[b,c]] WIDE lists (5..1025 components: a background stub with one other stub at the front, middle or back) and merged timelines overwritten by clone_from (from a longer, shorter or empty list, directly and through an Option slot) with the same oracle; non-trivial = non-empty lists", acc.disjoint_orders, stub_lists)));
+    cov.insert("rule".into(), json!(format!("ALL lists of length 0..={maxlen} over a pool of {np} component timelines (property sets {{a}},{{k}},{{a,k}},{{}}; delays 0..1; cycles 1/2,1,2,4; repeat None/Times 0,1,2,3/Infinite/Times(u32::MAX, metadata only); reverse on/off); oracle: merged.update == components applied in order (bit-equal; fresh and dirty targets; union of the components' time grids), same after start_with, all orders agree when property sets are disjoint ({} permuted lists), delay=min, duration=max (inf if any), repeat=largest in None<Times n<Infinite, cycle_duration=Some iff all equal, MergedTimeline::from(t) == t; plus a metadata family of {} lists over 960 stub components (cycle undefined/1/2/1+1ulp/1e-8/5e-8 x delay 0/0.5/2/-8 x duration 1/3/inf/-6/-2 x repeat None/Times 0/Times 3/Times 2^24/Times 2^24+1/Times(u32::MAX-1)/Times(u32::MAX)/Infinite): flat lists, nested merged timelines [[a,b],[c]], [[a],[b,c]] WIDE lists (5..1025 components: a background stub with one other stub at the front, middle or back) and merged timelines overwritten by clone_from (from a longer, shorter or empty list, directly and through an Option slot) with the same oracle; non-trivial = non-empty lists", acc.disjoint_orders, stub_lists)));
     cov.insert("exhaustive".into(), json!(true));
     cov.insert("metadata_checks".into(), json!(acc.meta_checks));
     cov.insert("distinct_observed_outcomes_capped".into(), json!(acc.outcomes.len()));
